@@ -20,6 +20,7 @@ import os
 import random
 import time
 
+import engine
 import streams
 import vlib
 from vlib import log, Inconclusive
@@ -209,7 +210,7 @@ def c08(tier, repo=None):
         log("  note: %d race reports without a frame in eino/schema (harness only): not counted" % len(races))
     code, n_new, n_known = verdict.finish()
     if code == 0 and bad and not confirmed and unrepro:
-        raise Inconclusive("%d rejected traces did not reproduce" % unrepro)
+        raise Inconclusive("%d rejected traces did not reproduce: %s" % (unrepro, ", ".join("%s (%s)" % (k, v) for k, v in list(bad.items())[:5])))
 
     sigs = set()
     for cid, (c, ls) in idx.items():
@@ -254,9 +255,9 @@ REPRO19 = 10
 
 def c19_tier(tier):
     if tier == "quick":
-        return {"gens": [("dag", 3, 6), ("pregel", 3, 6), ("wf", 3, 6)], "per_mode": 400, "sim": [], "mc_shapes": 5, "mc_timeout": 170}
+        return {"gens": [("dag", 3, 6), ("pregel", 3, 6), ("wf", 3, 6)], "per_mode": 400, "sim": [], "mc_shapes": 5, "mc_timeout": 170, "burst": 2000, "burst_race": 300}
     return {"gens": [("dag", 3, 6), ("pregel", 3, 6), ("wf", 3, 6), ("dag", 4, 7), ("pregel", 4, 7), ("wf", 4, 7)], "per_mode": 1300,
-            "sim": [], "mc_shapes": 40, "mc_timeout": 1200}
+            "sim": [], "mc_shapes": 40, "mc_timeout": 1200, "burst": 20000, "burst_race": 2000}
 
 
 def classify19(sc, reason, obs):
@@ -363,6 +364,7 @@ def c19(tier, repo=None):
     # self-test of the binding: corrupt one field / drop one line of a recorded trace
     st = selftest19(lines, idx)
     verdict = vlib.Verdict("C19")
+    burst = burst19(P, repo, verdict)
     confirmed, unrepro = [], 0
     if bad:
         # order-dependent leaks (fan-in order comes from map iteration, select is random): re-run each rejected scenario REPRO19 times;
@@ -395,6 +397,8 @@ def c19(tier, repo=None):
         raise Inconclusive("model check of the plumbing-shaped trees timed out")
     vlib.tlc_must_pass(mc, "model check Streams.tla on plumbing-shaped trees")
     log("  model: %d plumbing-shaped reader trees, %d distinct states, %.0fs: no deadlock, sources closed once, forwarders gone at the end" % (len(pl), mc.distinct, mc.wall_s))
+    if code == 0 and burst["unreproduced"]:
+        raise Inconclusive("%d rejected barrier cases did not reproduce" % burst["unreproduced"])
     sigs = set()
     for cid, (c, ls) in idx.items():
         if any('"ev":"send"' in ln for ln in ls):
@@ -415,7 +419,7 @@ def c19(tier, repo=None):
                                                                "invariants": streams.MC_INV + ["deadlock freedom"]},
            "lifecycle_lines": len(lines), "trace_validation_states": res["states"], "producers_told_closed": told,
            "runs_failed_outside_scope": len(failed), "rejected": len(bad), "confirmed": len(confirmed), "unreproduced": unrepro,
-           "selftest": st, "known_findings": n_known}
+           "selftest": st, "known_findings": n_known, "barrier_closes": burst}
     vlib.write_evidence("C19", tier, "model_checking", cov, assumptions=[
         "goroutine-level quiescence is observed by a goroutine dump of the real process filtered to frames in eino/schema, eino/compose and the "
         "harness producers, taken after every producer signalled (bounded wait) and polled for at most ~0.4 s while goroutines unwind",
@@ -425,9 +429,65 @@ def c19(tier, repo=None):
         "plumbing-shaped reader trees (Streams.tla), the engine half is bound by the real runs",
         "TLC, the Json community module and the Go harness are trusted"],
         wall_s=time.time() - t0, violations=n_new)
-    log("[C19] %s: %d scenarios validated (%d distinct non-trivial), %d rejected, %d confirmed (%d known), %.0fs" % (
-        "VIOLATION" if code else "ok", len(idx), len(sigs), len(bad), len(confirmed), n_known, time.time() - t0))
+    log("[C19] %s: %d scenarios validated (%d distinct non-trivial), %d rejected, %d confirmed (%d known); barrier closes: %d rounds, "
+        "%d cases rejected, %d race reports; %.0fs" % (
+        "VIOLATION" if code else "ok", len(idx), len(sigs), len(bad), len(confirmed), n_known, burst["rounds"], burst["rejected_cases"],
+        burst["race_reports"], time.time() - t0))
     return code
+
+
+def burst19(P, repo, verdict):
+    """Close propagation under truly concurrent closes (schema level, no graph): Copy(2..4) of a pipe, all copies closed by goroutines
+    released together through a spin barrier, many rounds; then the writer must be told (source closed, producer released).
+    (a) every round is judged by TLC (StreamsObs.ObsBurst); (b) the same driver once under the race detector: a report with a frame in
+    eino's non-test code is a violation; (c) the seeded-defect model (read and write of the close counter as two steps) must fail in TLC."""
+    out = {"rounds_per_width": P["burst"], "race_rounds_per_width": P["burst_race"], "unreproduced": 0}
+    cases = streams.burst_cases(P["burst"])
+    lines, _, wall, _ = streams.run_schema(cases, repo=repo)
+    res = streams.validate_obs(lines, nproc=4)
+    bad = {}
+    for cid, _ln, reason in res["bad"]:
+        bad.setdefault(cid, reason)
+    out.update({"rounds": sum(1 for ln in lines if ln.startswith('{"ev":"burst"')), "obs_states": res["states"], "rejected_cases": len(bad),
+                "told_false": sum(1 for ln in lines if ln.startswith('{"ev":"burst"') and '"res":"false"' in ln)})
+    log("  barrier closes: %d rounds (Copy 2-4), %d cases rejected by StreamsObs, %.0fs" % (out["rounds"], len(bad), wall))
+    if bad:
+        by = {c["id"]: c for c in cases}
+        again = [dict(by[cid], id=cid + "#r", rounds=3 * P["burst"]) for cid in bad]
+        lines2, _, _, _ = streams.run_schema(again, repo=repo)
+        res2 = streams.validate_obs(lines2, nproc=4)
+        bad2 = {cid: reason for cid, _ln, reason in res2["bad"]}
+        for cid, reason in sorted(bad.items()):
+            if bad2.get(cid + "#r") == reason:
+                verdict.violation("%s/concurrent-close-of-%s" % (reason, cid.split("-")[-1]), {"case": by[cid]}, reason)
+            else:
+                out["unreproduced"] += 1
+                log("  note: rejection of %s (%s) did not reproduce: not counted" % (cid, reason))
+    rcases = streams.burst_cases(P["burst_race"], prefix="br")
+    _, _, wall_r, output = streams.run_schema(rcases, race=True, repo=repo)
+    reps = engine.race_reports(output)
+    out["race_reports"] = len(reps)
+    log("  barrier closes under -race: %d rounds per width, %d reports with a frame in eino non-test code, %.0fs" % (P["burst_race"], len(reps), wall_r))
+    if reps:
+        _, _, _, output2 = streams.run_schema(rcases, race=True, repo=repo)
+        again = {r["top_frame"] for r in engine.race_reports(output2)}
+        for fr in sorted({r["top_frame"] for r in reps}):
+            if fr in again:
+                verdict.violation("data-race:" + fr, {"race_report": next(r["text"] for r in reps if r["top_frame"] == fr)},
+                                  "race detector report with a frame in eino non-test code during concurrent closes of stream copies")
+            else:
+                out["unreproduced"] += 1
+    # must-fail configuration of the model: the lost update is a behaviour of Streams.tla when the counter is read and written in two steps
+    shapes, _ = streams.gen_shapes(1, 1, 6)
+    cp = [s for s in shapes if s["desc"].startswith("copy") or "copy2(p1)" in s["desc"] or "copy3(p1)" in s["desc"]]
+    cp = [s for s in cp if "p1" in s["desc"]][:2]
+    consts = {"Caps1": [1], "MaxItems1": 1, "CapsN": [1], "MaxItemsN": 1, "MaxItems3": 1, "ErrItems1": False, "ErrItemsN": False, "SplitCount": True}
+    run = streams.model_check(cp, consts, workers=2, timeout=120)
+    out["seeded_defect_model"] = {"trees": [s["desc"] for s in cp], "tlc_error": run.error, "distinct": run.distinct}
+    if run.timed_out or run.error is None or not (run.error.startswith("invariant:") or run.error == "deadlock"):
+        raise Inconclusive("the seeded-defect model (SplitCount = TRUE) was expected to fail in TLC, got %s" % run.error)
+    log("  model with the close counter split into read and write (must fail): TLC reports %s after %d states" % (run.error, run.distinct))
+    return out
 
 
 def selftest19(lines, idx):
